@@ -264,6 +264,20 @@ PROPS = {
         "assumptions": ["thread schedules are not enumerated", "partition wrappers use allow_rechunk (no precondition)"],
         "technique": "ghost-state preconditions discharged on symbolic chunk counts + syntactic GIL obligation from the C AST + bounded dask runs",
     },
+    "C11": {
+        "level": "other",
+        "engines": [{"kind": "pyse"}],
+        "explanation": "BOUNDED (run-time contracts on the real writer/reader pairs, seeded datasets, every run): SWAN ASCII (station and "
+        "gridded lat x lon with unequal sizes, plain and gzip, ntime in {None,1,2,3}, sorted / rolled directions, zero spectra, energies over 9 "
+        "orders of magnitude), Octopus (one site), JSON (station / grid, NaN spectra) and Funwave (one spectrum, no clipping): the file read "
+        "back has the same times, positions, frequencies, directions and every spectrum at the position it was written from within the "
+        "format's resolution (SWAN: max/9998 per spectrum). PROVED (z3 scalar lemmas on the real helper): turning a direction by 180 twice and "
+        "to_nautical twice are the identity on [0,360), the degree/radian density factors cancel.",
+        "trusted_base": ["decimal formatting/parsing (numpy.savetxt/genfromtxt, f-strings, gzip, json) - assumed, exercised by the bounded runs"],
+        "assumptions": ["netCDF-based pairs (wavespectra netCDF, WW3 netCDF) cannot run offline (netCDF4 missing): not covered",
+                        "index maps of writers/readers are not proved symbolically"],
+        "technique": "run-time round-trip contracts with format resolution oracles (bounded) + z3 scalar lemmas for unit/direction inverses",
+    },
 }
 
 _PENDING = "not yet brought under contract in the current build round (see DESIGN.md section 8 for the order of work)"
